@@ -126,6 +126,8 @@ func runC19(e *sim.Env) {
 				e.Violationf("C19.same-as-unpruned", "headers", "%s: Headers(%v,%d)[%d] differs from the twin", label, from.Index(), max, i)
 			}
 		}
+		// the fee estimate reads recent block bodies: without them a number, never a panic
+		e.Guard("C19.panic", "RecommendedFee", func() { s.cm.RecommendedFee() })
 		// requests that may need pruned bodies: an error or the twin's answer, never a panic
 		sub := path[e.Intn(len(path))]
 		var ru1, ru2 []chain.RevertUpdate
